@@ -529,6 +529,18 @@ func tokenDiff(o *Oracle, oc *Outcome, c *FormatCase) {
 			if nv != pb.NbVars || (un == 1 && pb.Status != solver.Unsat) {
 				oc.Fail("corr", "formats-mirror", "solver.ParseOPB", "Go: NbVars %d status %v; mirror %q", pb.NbVars, pb.Status, a)
 			}
+			// end to end: the parsed problem (status, units, remaining constraints after the unit check
+			// and simplifyPB) against GS.OpbFull.parseOpbFull (theorems parseOpbFull_equiv / _render)
+			if full := o.Ask("popbfull " + toks); strings.HasPrefix(full, "ok ") {
+				oc.Corr++
+				got := strings.TrimRight(fmtProblem(pb, true), " ")
+				want := mirrorProblem(strings.TrimPrefix(strings.SplitN(full, " | obj=", 2)[0], "ok "))
+				if got != want {
+					oc.Fail("corr", "opb-full-mirror", "solver.ParseOPB", "Go parsed to %q, the Lean mirror GS.OpbFull.parseOpbFull to %q", got, want)
+				}
+			} else if full != "unmodelled" {
+				oc.Fail("corr", "opb-full-mirror", "solver.ParseOPB", "Go parses the text, the end-to-end mirror answers %q", full)
+			}
 		}
 	}
 }
